@@ -58,35 +58,67 @@ def _mentions(node, names):
     return all(n in ids for n in names)
 
 
+def local_defs(fn):
+    """names assigned exactly once in fn by a plain `name = expression` (temporaries that may be inlined)"""
+    count, val = {}, {}
+    for n in ast.walk(fn):
+        if isinstance(n, (ast.Assign, ast.AugAssign, ast.AnnAssign, ast.For)):
+            targets = n.targets if isinstance(n, ast.Assign) else [n.target]
+            for t in targets:
+                for x in ast.walk(t):
+                    if isinstance(x, ast.Name):
+                        count[x.id] = count.get(x.id, 0) + 1
+                        if isinstance(n, ast.Assign) and len(n.targets) == 1 and isinstance(t, ast.Name):
+                            val[x.id] = n.value
+    return {k: v for k, v in val.items() if count.get(k) == 1}
+
+
+def _expanded_names(node, defs, stop, depth=0):
+    ids = set()
+    for x in ast.walk(node):
+        if isinstance(x, ast.Name):
+            if x.id in defs and x.id not in stop and depth < 6:
+                ids |= _expanded_names(defs[x.id], defs, stop, depth + 1)
+            else:
+                ids.add(x.id)
+    return ids
+
+
 def under_sqrt_abs(fn, must_mention):
-    """the expression E of the unique `sqrt(abs(E))` in fn whose E mentions all of must_mention"""
+    """the expression E of the unique `sqrt(abs(E))` in fn whose E mentions (possibly through once-assigned temporaries) all of must_mention"""
+    defs = local_defs(fn)
     hits = []
     for n in ast.walk(fn):
         if isinstance(n, ast.Call) and _callname(n) == "sqrt" and len(n.args) == 1 and isinstance(n.args[0], ast.Call) \
-                and _callname(n.args[0]) == "abs" and len(n.args[0].args) == 1 and _mentions(n.args[0].args[0], must_mention):
-            hits.append(n.args[0].args[0])
+                and _callname(n.args[0]) == "abs" and len(n.args[0].args) == 1:
+            E = n.args[0].args[0]
+            if set(must_mention) <= _expanded_names(E, defs, set(must_mention)):
+                hits.append(E)
     if len(hits) != 1:
         raise Untranslatable(f"{fn.name}: expected exactly one sqrt(abs(E)) mentioning {must_mention}, found {len(hits)}")
-    return hits[0]
+    return hits[0], defs
 
 
-def arith(node, atoms):
-    """Python arithmetic over the atoms -> Gallina term over Op.  atoms: unparsed sub-expression -> Gallina variable"""
+def arith(node, atoms, defs=None, depth=0):
+    """Python arithmetic over the atoms -> Gallina term over Op.  atoms: unparsed sub-expression -> Gallina variable;
+    defs: once-assigned temporaries, inlined"""
     src = ast.unparse(node)
     if src in atoms:
         return atoms[src]
+    if isinstance(node, ast.Name) and defs and node.id in defs and depth < 6:
+        return arith(defs[node.id], atoms, defs, depth + 1)
     if isinstance(node, ast.BinOp):
         if isinstance(node.op, ast.Pow):
             if isinstance(node.right, ast.Constant) and node.right.value == 2:
-                a = arith(node.left, atoms)
+                a = arith(node.left, atoms, defs, depth)
                 return f"(fmul Op {a} {a})"
             raise Untranslatable(f"power other than 2: {src}")
         op = {ast.Add: "fadd", ast.Sub: "fsub", ast.Mult: "fmul"}.get(type(node.op))
         if op is None:
             raise Untranslatable(f"operator {type(node.op).__name__} in {src}")
-        return f"({op} Op {arith(node.left, atoms)} {arith(node.right, atoms)})"
+        return f"({op} Op {arith(node.left, atoms, defs, depth)} {arith(node.right, atoms, defs, depth)})"
     if isinstance(node, ast.UnaryOp) and isinstance(node.op, ast.USub):
-        return f"(fopp Op {arith(node.operand, atoms)})"
+        return f"(fopp Op {arith(node.operand, atoms, defs, depth)})"
     if isinstance(node, ast.Constant) and type(node.value) in (int, float) and node.value in (0, 1, 2):
         return {0: "(f0 Op)", 1: "(f1 Op)", 2: "(two Op)"}[int(node.value)]
     raise Untranslatable(f"construct {type(node).__name__}: {src}")
@@ -97,7 +129,20 @@ def iprod_shape(fn):
     assigns = [n for n in ast.walk(fn) if isinstance(n, ast.Assign) and len(n.targets) == 1 and getattr(n.targets[0], "id", "") == "iprod"]
     if len(assigns) != 1:
         raise Untranslatable(f"{fn.name}: expected one assignment to iprod, found {len(assigns)}")
-    v = assigns[0].value
+    keep = {"mttkrp", "factors", "weights", "modes", "modes_list", "iprod"}
+    defs = {k: d for k, d in local_defs(fn).items() if k not in keep}
+
+    class Inline(ast.NodeTransformer):
+        depth = 0
+
+        def visit_Name(self, node):
+            if isinstance(node.ctx, ast.Load) and node.id in defs and self.depth < 6:
+                self.depth += 1
+                out = self.visit(ast.parse(ast.unparse(defs[node.id]), mode="eval").body)
+                self.depth -= 1
+                return out
+            return node
+    v = Inline().visit(ast.parse(ast.unparse(assigns[0].value), mode="eval").body)
     if not (isinstance(v, ast.Call) and _callname(v) == "sum" and len(v.args) == 1 and not v.keywords):
         raise Untranslatable(f"{fn.name}: iprod is not sum(...): {ast.unparse(v)}")
     inner, outside = v.args[0], False
@@ -148,8 +193,8 @@ def mttkrp_weights(fn):
 
 
 def cp_goal(name, err_fn, loop_fn):
-    E = under_sqrt_abs(err_fn, ["iprod"])
-    body = arith(E, {"norm_tensor": "nt", "factors_norm": "fn", "iprod": "ip"})
+    E, defs = under_sqrt_abs(err_fn, ["iprod"])
+    body = arith(E, {"norm_tensor": "nt", "factors_norm": "fn", "iprod": "ip"}, defs)
     idx, outside = iprod_shape(err_fn)
     uw = mttkrp_weights(loop_fn)
     if (uw == "weights") == outside:
@@ -172,8 +217,8 @@ Qed.
 
 
 def hooi_goal(fn):
-    E = under_sqrt_abs(fn, ["norm_tensor", "core"])
-    body = arith(E, {"norm_tensor": "nt", "tl.norm(core, 2)": "nc", "norm(core, 2)": "nc", "T.norm(core, 2)": "nc"})
+    E, defs = under_sqrt_abs(fn, ["norm_tensor", "core"])
+    body = arith(E, {"norm_tensor": "nt", "tl.norm(core, 2)": "nc", "norm(core, 2)": "nc", "T.norm(core, 2)": "nc"}, defs)
     return "hooi", f"""
 Definition gen_hooi (nt nc : F) : F := {body}.
 Lemma tie_hooi : forall (s rs : list nat) (X G : list nat -> F) (us : list (nat -> nat -> F)) (nt nc : F),
@@ -188,8 +233,8 @@ Qed.
 
 
 def p2_goal(fn):
-    E = under_sqrt_abs(fn, ["norm_X_sq", "inner_product", "norm_cmf_sq"])
-    body = arith(E, {"norm_X_sq": "nx", "inner_product": "ip", "norm_cmf_sq": "nc"})
+    E, defs = under_sqrt_abs(fn, ["norm_X_sq", "inner_product", "norm_cmf_sq"])
+    body = arith(E, {"norm_X_sq": "nx", "inner_product": "ip", "norm_cmf_sq": "nc"}, defs)
     return "parafac2", f"""
 Definition gen_parafac2 (nx ip nc : F) : F := {body}.
 Lemma tie_parafac2 : forall (I K Rk : nat) (J : nat -> nat) (X P : nat -> nat -> nat -> F) (A Bm C : nat -> nat -> F),
@@ -287,9 +332,13 @@ def loop_flags(fn):
 
     def visit(stmts, guards):
         for st in stmts:
-            if isinstance(st, ast.For) and getattr(st.target, "id", "") == "mode":
-                ev.append(("U", guards, any(nm == "cp_normalize" for nm, _ in _calls(st))))
+            if isinstance(st, ast.For) and getattr(st.target, "id", "") == "mode" and \
+                    any(isinstance(x, ast.Subscript) and isinstance(x.ctx, ast.Store) and getattr(x.value, "id", "") == "factors" for x in ast.walk(st)):
+                ev.append(("U", guards, any(nm == "cp_normalize" for nm, _ in _calls(st))))     # the sweep: it overwrites entries of `factors`
                 continue
+            if isinstance(st, ast.For) and not any(nm in ("error_calc", "cp_norm", "append", "cp_normalize", "callback") for nm, _ in _calls(st)) \
+                    and not any(isinstance(x, ast.Break) for x in ast.walk(st)):
+                continue                                                                         # a loop that touches none of the events
             if isinstance(st, ast.If):
                 if _ends_with_break(st.body):
                     ev.append(("B", guards, any(nm == "cp_normalize" for nm, _ in _calls(st))))
@@ -356,6 +405,7 @@ def ties(repo):
         ("loop_order_parafac", lambda: cfg_goal("parafac", _fn(cp, "parafac"), False)),
         ("loop_order_non_negative_parafac", lambda: cfg_goal("non_negative_parafac", _fn(nn, "non_negative_parafac"), True)),
         ("loop_order_non_negative_parafac_hals", lambda: cfg_goal("non_negative_parafac_hals", _fn(nn, "non_negative_parafac_hals"), True)),
+        ("loop_order_constrained_parafac", lambda: cfg_goal("constrained_parafac", _fn(cc, "constrained_parafac"), False)),
     ]
     out = []
     for name, mk in makers:
